@@ -50,6 +50,7 @@ type Step struct {
 	Nm2  string   `json:"nm2"`
 	Meta2 bool    `json:"meta2"`
 	Kb   bool     `json:"kb"`  // put / setEACL: the publicKey argument is not 33 bytes long
+	Rb   bool     `json:"rb"`  // setEACL: re-submit the table BYTES last offered for this container (new signature/key/token)
 	Ash  int64    `json:"ash"` // seed of the argument shapes the Spec ignores (0: drawn from the scenario seed and the step position)
 	O    string   `json:"o"`
 	K    string   `json:"k"`
@@ -111,6 +112,7 @@ type world struct {
 	step                      int
 	verLen                    []int                      // version-field length of every container blob (moves the owner offset)
 	putOffers, eaclOffers     map[string]string          // descriptors offered so far -> variant
+	lastEACL                  map[string][]byte          // container -> table bytes of the last setEACL offer
 	bKeys                     map[string]map[string]bool // owner -> keys offered with an empty token (NeoFSID)
 }
 
@@ -186,7 +188,7 @@ func newWorld(t *testing.T, n int, scale int, seed int64, verlen ...[]int) *worl
 	w := &world{t: t, c: c, owners: map[string]neotest.Signer{}, ownerID: map[string][]byte{}, blob: map[string][]byte{},
 		cid: map[string][]byte{}, cidName: map[string]string{}, vars: map[string]variant{}, evars: map[string]variant{},
 		accName: map[string]string{}, U: scales[scale%len(scales)], seed: seed,
-		putOffers: map[string]string{}, eaclOffers: map[string]string{}, bKeys: map[string]map[string]bool{}}
+		putOffers: map[string]string{}, eaclOffers: map[string]string{}, lastEACL: map[string][]byte{}, bKeys: map[string]map[string]bool{}}
 	vr := rand.New(rand.NewSource(seed*31 + 7))
 	for i := 0; i < nCids; i++ {
 		w.verLen = append(w.verLen, verLens[vr.Intn(len(verLens))])
@@ -345,6 +347,10 @@ func (w *world) exec(st Step) chain.Rec {
 	case "setEACL":
 		require.Contains(w.t, []string{"a", "b"}, st.V)
 		blob, sig, pub, tok := w.eaclBlob(sh, st.C), anyBytes(sh, 64, 64, 65, 3), pubArg(sh, st.Kb), anyBytes(sh, 1, 30, 200)
+		if last, ok := w.lastEACL[st.C]; ok && st.Rb { // byte-identical table, everything else fresh (ninth seeded batch, C04f)
+			blob = last
+		}
+		w.lastEACL[st.C] = blob
 		w.eaclOffers[offerKey(st.C, blob, asBytes(sig), pub, asBytes(tok))] = st.V
 		r = w.c.Run(w.cn, sg, "setEACL", blob, sig, pub, tok)
 	case "setConfig":
@@ -387,7 +393,7 @@ func (w *world) exec(st Step) chain.Rec {
 	}
 	ntf, xfer := w.events(evs)
 	rec := chain.Rec{"act": st.Act, "S": names, "c": st.C, "v": st.V, "nm": st.Nm, "meta": st.Meta, "o": st.O, "k": st.K,
-		"amt": st.Amt, "res": r.Res(), "ret": ret, "ntf": ntf, "xfer": xfer, "fault": r.Fault, "kb": st.Kb, "ash": st.Ash,
+		"amt": st.Amt, "res": r.Res(), "ret": ret, "ntf": ntf, "xfer": xfer, "fault": r.Fault, "kb": st.Kb, "rb": st.Rb, "ash": st.Ash,
 		"c2": "nil", "v2": "nil", "nm2": "nil", "meta2": false, "res2": "nil", "ntf2": []any{}, "xfer2": []any{}}
 	if r2 != nil {
 		evs = nil
@@ -797,7 +803,7 @@ func (w *world) txtName(data []byte) string {
 func resetRec(idx int, sc *Scenario, obs map[string]any) chain.Rec {
 	return chain.Rec{"t": idx, "act": "reset", "S": []string{}, "c": "nil", "v": "nil", "nm": "nil", "meta": false, "o": "nil", "k": "nil",
 		"amt": 0, "res": "HALT", "ret": "null", "ntf": []any{}, "xfer": []any{}, "c2": "nil", "v2": "nil", "nm2": "nil", "meta2": false,
-		"res2": "nil", "ntf2": []any{}, "xfer2": []any{}, "kb": false, "ash": 0, "obs": obs, "bad": []string{}, "badAmt": []string{},
+		"res2": "nil", "ntf2": []any{}, "xfer2": []any{}, "kb": false, "rb": false, "ash": 0, "obs": obs, "bad": []string{}, "badAmt": []string{},
 		"n": sc.N, "scale": sc.Scale, "src": sc.Src}
 }
 
@@ -937,7 +943,7 @@ func randScenario(r *rand.Rand) *Scenario {
 		case k < 12:
 			sc.Steps = append(sc.Steps, Step{Act: "delete", S: sig(), C: pick(allc), V: "nil", Nm: "nil", O: "nil", K: "nil"})
 		case k < 15:
-			sc.Steps = append(sc.Steps, Step{Act: "setEACL", S: sig(), C: pick(allc), V: pick(vs), Nm: "nil", Kb: r.Intn(12) == 0, O: "nil", K: "nil"})
+			sc.Steps = append(sc.Steps, Step{Act: "setEACL", S: sig(), C: pick(allc), V: pick(vs), Nm: "nil", Kb: r.Intn(12) == 0, Rb: r.Intn(3) == 0, O: "nil", K: "nil"})
 		case k < 18:
 			if !withFees {
 				continue
@@ -1013,7 +1019,8 @@ func trapLifecycle(n int) *Scenario {
 		{Act: "setEACL", S: sA, C: "c1", V: "b", Nm: "nil", Kb: true, O: "nil", K: "nil"}, // key of another length
 		{Act: "put", S: sA, C: "c2", V: "a", Nm: "nil", Kb: true, O: "nil", K: "nil"},
 		{Act: "put", S: sA, C: "c2", V: "b", Nm: "nil", Kb: true, O: "nil", K: "nil"},
-		st("setEACL", sA, "c1", "b", "nil"),
+		{Act: "setEACL", S: sA, C: "c1", V: "b", Nm: "nil", Rb: true, O: "nil", K: "nil"}, // the same table bytes again, re-signed
+		{Act: "setEACL", S: sA, C: "c1", V: "a", Nm: "nil", Rb: true, O: "nil", K: "nil"}, // and once more as another variant
 		st("put", sA, "c2", "a", "n1"),
 		st("put", sA, "c3", "a", "n1"), // taken
 		st("put", sA, "c2", "a", "n1"), // same container, same name: taken as well
